@@ -137,7 +137,7 @@ def run(ctx) -> None:
         tg = st.targets[0]
         names = [norm(e) for e in tg.elts] if isinstance(tg, ast.Tuple) else [norm(tg)]
         want = ['self.LCOE.value', 'self.LCOH.value']
-        ok = len(names) == 3 and names[:2] == want and names[2] in ('self.LCOC.value', 'LCOC')
+        ok = len(names) == 3 and names[:2] == want and (names[2] == 'self.LCOC.value' or names[2].isidentifier())      # a plain local may take the third value
         ctx.check(ok, 'R7', f'{g.qualname}/unpack-order', f'{g.module.rel}:{st.lineno}',
                   f'result unpacked into {names}; positions are (LCOE, LCOH, LCOC)')
     # who else writes <x>.LCOE.value etc.
